@@ -22,6 +22,8 @@ func main() {
 	verif := flag.String("verif", "/verif", "verification directory (evidence, known findings)")
 	debug := flag.String("debug", "", "debug dump: abuf|afmt|labels")
 	only := flag.String("rule", "", "run a single rule id")
+	oracle := flag.String("oracle", "/verif/checker/oracle", "directory of the reference fmt sources")
+	genEvo := flag.Bool("gen-evolution", false, "developer command: regenerate oracle/*/evolution.json from the current tree")
 	flag.Parse()
 	if t := os.Getenv("VERIF_TIER"); t != "" && *tier == "quick" {
 		*tier = t
@@ -42,7 +44,14 @@ func main() {
 		fmt.Printf("UNDECIDED property=%s cannot load %s: %v\n", *prop, *repo, err)
 		os.Exit(2)
 	}
-	ctx := &rules.Ctx{P: p, Tier: *tier}
+	ctx := &rules.Ctx{P: p, Tier: *tier, Oracle: *oracle}
+	if *genEvo {
+		if err := rules.GenEvolution(ctx); err != nil {
+			fmt.Println(err)
+			os.Exit(2)
+		}
+		return
+	}
 	if *debug != "" {
 		rules.Debug(ctx, *debug)
 		return
